@@ -393,9 +393,9 @@ def _run_ops(sc, res, sessions, ctx, z3cap):
                 res.log("op", n_op, "solve", r)
             elif k == "find_answer":
                 ctx.reset_calls()
-                ctx.cap = 4
+                ctx.cap = 16
                 z3cap["calls"] = 0
-                z3cap["cap"] = 4
+                z3cap["cap"] = 16
                 r = S.solver.find_answer(backend=S.backend)
                 _check_find_answer(res, S, r, n_op)
             else:
